@@ -253,6 +253,16 @@ func (e *Env) ident(name string) Val {
 	if v, ok := e.vars["old:"+name]; ok {
 		return v
 	}
+	// caller_<p>: parameter p of the function under contract (also inside local definitions)
+	if rest, ok := strings.CutPrefix(name, "caller_"); ok {
+		root := e.ex
+		for root.parent != nil {
+			root = root.parent
+		}
+		if v, ok := root.params[rest]; ok {
+			return v
+		}
+	}
 	// captured variable of a closure under contract: its current value
 	if e.ex.fn != nil {
 		for _, fv := range e.ex.fn.FreeVars {
@@ -786,6 +796,20 @@ func (e *Env) call(x *ast.CallExpr) Val {
 			}
 			return v
 		}
+		// the callee is called somewhere in the function but not before this point on this path: an arbitrary
+		// value (clauses guard such uses with called(f) == 1)
+		if rt := root.resultTypeOfCallee(nm); rt != nil {
+			v := root.freshVal("resultof.none", rt)
+			if len(x.Args) == 2 && len(v.Tuple) > 0 {
+				iv := e.eval(x.Args[1])
+				if iv.Const != nil {
+					if n, _ := constant.Int64Val(iv.Const); n >= 0 && int(n) < len(v.Tuple) {
+						return v.Tuple[n]
+					}
+				}
+			}
+			return v
+		}
 		panic(e.fail("resultof(%s): no such call seen before this point", nm))
 	case "called":
 		// number of calls (so far on this path) of the callee named in an assert-call clause
@@ -1203,4 +1227,33 @@ func (e *Env) pureCall(fn *types.Func, recv *Val, args []ast.Expr) Val {
 		}
 	}
 	return Val{T: app, Ty: rt}
+}
+
+// resultTypeOfCallee finds a call of the named callee anywhere in the function and returns its result type.
+func (ex *Exec) resultTypeOfCallee(nm string) types.Type {
+	if ex.fn == nil {
+		return nil
+	}
+	for _, b := range ex.fn.Blocks {
+		for _, in := range b.Instrs {
+			call, ok := in.(*ssa.Call)
+			if !ok {
+				continue
+			}
+			cc := &call.Call
+			var full string
+			switch {
+			case cc.IsInvoke():
+				full = cc.Method.FullName()
+			case cc.StaticCallee() != nil:
+				full = cc.StaticCallee().String()
+			default:
+				full = exprName(cc.Value)
+			}
+			if calleeMatches(full, nm) {
+				return call.Type()
+			}
+		}
+	}
+	return nil
 }
